@@ -11,6 +11,7 @@ import (
 	"verif/rec"
 	"verif/wv"
 
+	"github.com/consensys/gnark/constraint/solver"
 	"github.com/consensys/gnark/frontend"
 	"pgregory.net/rapid"
 )
@@ -88,7 +89,11 @@ func c03Run(c c03Case) (viol bool, desc string, res eng.Result, expectAccept boo
 			}
 			c03Compiled[key] = sys
 		}
-		serr := sys.SolveCircuit(asg, cs.TolerantHints()...)
+		var hopts []solver.Option
+		if !expectAccept {
+			hopts = cs.TolerantHints() // dishonest witness: the prover is not bound to the shipped hints
+		}
+		serr := sys.SolveCircuit(asg, hopts...)
 		if (serr == nil) != expectAccept {
 			return true, fmt.Sprintf("%s compiled to R1CS: solver says %v for limbs %v values %v, expected accept=%v", in.Name(), serr, c.Limbs, c.V, expectAccept), res, expectAccept
 		}
